@@ -352,6 +352,8 @@ type DestScript struct {
 	// unsplit record, "<src>:<idx>:<k>/<n>" for piece k of n) are rejected, all others confirmed (input enumeration
 	// rather than schedule enumeration, used by C08).
 	Reject map[string]bool
+	// ChunkAcks makes the forced answers of Reject arrive record by record (one ack response per record).
+	ChunkAcks bool
 }
 
 // Dest is a scripted SDK-level destination plugin.
@@ -482,6 +484,9 @@ func (d *Dest) Run(ctx context.Context, stream pconnector.DestinationRunStream) 
 			if any {
 				menu = []string{"n:" + string(bits)}
 			}
+			if d.S.ChunkAcks {
+				menu = []string{"k:" + string(bits)}
+			}
 		}
 		k++
 		a := d.W.Gate(ctx, d.S.Name+".ack", menu...)
@@ -500,7 +505,7 @@ func (d *Dest) Run(ctx context.Context, stream pconnector.DestinationRunStream) 
 		for i, r := range recs {
 			src, idx, _, piece := Ident(r)
 			ack := pconnector.DestinationRunResponseAck{Position: r.Position}
-			rejected := a == "nack" || a == "defernack" || (strings.HasPrefix(a, "n:") && i < len(a)-2 && a[2+i] == '1')
+			rejected := a == "nack" || a == "defernack" || ((strings.HasPrefix(a, "n:") || strings.HasPrefix(a, "k:") || strings.HasPrefix(a, "h:")) && i < len(a)-2 && a[2+i] == '1')
 			if rejected {
 				ack.Error = "rejected by " + d.S.Name
 			}
@@ -556,6 +561,24 @@ func (d *Dest) Run(ctx context.Context, stream pconnector.DestinationRunStream) 
 				if err := srv.Send(pconnector.DestinationRunResponse{}); err != nil {
 					return err
 				}
+			}
+			continue
+		}
+		if strings.HasPrefix(a, "k:") { // the write is confirmed record by record: one response per record ("k:<reject bits>")
+			for i := range resp.Acks {
+				if err := srv.Send(pconnector.DestinationRunResponse{Acks: resp.Acks[i : i+1]}); err != nil {
+					return err
+				}
+			}
+			continue
+		}
+		if strings.HasPrefix(a, "h:") && len(resp.Acks) >= 2 { // ... or in two responses, first half / second half
+			h := len(resp.Acks) / 2
+			if err := srv.Send(pconnector.DestinationRunResponse{Acks: resp.Acks[:h]}); err != nil {
+				return err
+			}
+			if err := srv.Send(pconnector.DestinationRunResponse{Acks: resp.Acks[h:]}); err != nil {
+				return err
 			}
 			continue
 		}
